@@ -1,23 +1,32 @@
 import NeumannModel.Durable.Lemmas
 /-
   C02 — "Durable store: acknowledged writes survive any crash, in order".
-  ONLY the property theorems and their non-vacuity examples; definitions of the crash model
-  (`Reach`), `PrefixOf`, `MetaEq`, `CodecOK`, `Fits`, `logBytes` are in `Lemmas.lean`.
+  ONLY the property theorems and their non-vacuity examples; the definitions used by the
+  statements (`Reach`, `ReachF`, `PrefixOf`, `MetaEq`, `FullEq`, `RecoverIsPrefixFull`,
+  `RotationKeepsAcked`, `CodecOK`, `Fits`, `logBytes`) are in `Lemmas.lean`.
 
-  State compared: the metadata map (`Store.md`), which every non-cache `put`/`delete` writes and
-  which `get` returns for every key class except `_cache:` (documented as not durable) and the
-  entity-index/embedding-slab overlay of `emb:` keys (covered by the correspondence run only;
-  see `stale_entity_id_witness`).
+  Two levels of observation:
+   * the metadata map (`Store.md`): what every non-cache `put`/`delete` writes; `MetaEq`;
+   * the FULL observable image (`FullEq`): what `get` answers for every key outside the
+     `_cache:` class, i.e. the metadata map seen through the entity-index / embedding-slab
+     overlay of `emb:` keys.
+  Full image: one crash at any byte (`recover_is_prefix_full`), any chain of crashes and
+  checkpoints except the two crash points "snapshot in place, marker absent/incomplete"
+  (`recover_then_write_full_partial`), the live store (`live_image_follows_spec`), the finished
+  checkpoint (`checkpoint_crash_safe`, last part).  Metadata map: everything, all sync modes.
+  The model follows /repo after 197dc525, e374d74b and 6b9ec7ce; the behaviours before those
+  commits are refuted by the `_witness` theorems on `Sys.ckptStepsOld`, `applyEntryOld1`/`putOld`
+  and `applyEntryOld2`.
 -/
 namespace Neumann.Durable.Props
 open Neumann.FramedLog Neumann.Durable
 
 variable {crc : Bytes → Nat} {enc : Entry → Bytes} {dec : Bytes → Option Entry}
 
-/-- **One crash, any byte.** A fresh durable store runs ANY operation list; the log is cut at ANY
-    byte `n`.  Recovery succeeds and yields exactly the map produced by the first `k` operations,
-    and every operation whose records lie wholly before the cut (in particular every acknowledged
-    one: acknowledged ⇒ synced ⇒ `≤ syncedLen ≤ n`) is among them. -/
+/-- **One crash, any byte (metadata map).** A fresh durable store runs ANY operation list; the log
+    is cut at ANY byte `n`.  Recovery succeeds and yields exactly the map produced by the first `k`
+    operations, and every operation whose records lie wholly before the cut (in particular every
+    acknowledged one: acknowledged ⇒ synced ⇒ `≤ syncedLen ≤ n`) is among them. -/
 theorem recover_is_prefix (hc : CodecOK crc enc dec) (ops : List Op) (n : Nat)
     (hfit : Fits enc (runOps Store.empty ops).1) :
     ∃ k r, k ≤ ops.length ∧
@@ -48,9 +57,36 @@ theorem recover_is_prefix (hc : CodecOK crc enc dec) (ops : List Op) (n : Nat)
     · exact hlen
     · rfl
 
-/-- **Any number of crashes, with writes in between, checkpoints included** (induction on the
-    crash chain): every reachable disk state recovers, and to the map produced by a history that
-    takes, epoch by epoch, a prefix of the operations containing all acknowledged ones. -/
+/-- **One crash, any byte, FULL observable image** (`RecoverIsPrefixFull` for the repaired
+    `recover`, every operation list over every key class and value, every cut byte — also a cut
+    between the `EmbeddingSet` and the `MetadataSet` record of one put, and also operation lists
+    that make the writer's entity ids differ from the ids replay assigns): `get` on the recovered
+    store answers, for every key outside the `_cache:` class, what the first `k` operations
+    wrote, and every acknowledged operation is among them. -/
+theorem recover_is_prefix_full (hc : CodecOK crc enc dec) (ops : List Op) (n : Nat)
+    (hfit : Fits enc (runOps Store.empty ops).1) :
+    RecoverIsPrefixFull (recover crc dec) crc enc ops n := by
+  obtain ⟨k, r, hk, hrec, hmd, -, hack⟩ := recover_is_prefix hc ops n hfit
+  refine ⟨k, r, hk, hrec, ?_, hack⟩
+  have hplain := runOps_plain Store.empty ops
+  have hno : NoTx (runOps Store.empty ops).1 := fun e he => (hplain e he).1
+  have hrec' := recover_take_plain hc none _ n hfit hno
+  rw [hrec'] at hrec
+  injection hrec with hrec
+  have hpl := afterLastCkpt_append_plain []
+    ((runOps Store.empty ops).1.take (wholeWithin crc ((runOps Store.empty ops).1.map enc) n))
+    (fun e he => (hplain e (List.mem_of_mem_take he)).2)
+  rw [List.nil_append, afterLastCkpt_nil, List.nil_append] at hpl
+  rw [hpl] at hrec
+  have hg : Good r := by
+    rw [← hrec]
+    exact good_replay_take good_empty good_empty (sim_refl _) ops _
+  exact good_fullEq hg hmd
+
+/-- **Any number of crashes, with writes in between, checkpoints included (metadata map)**
+    (induction on the crash chain): every reachable disk state recovers, and to the map produced
+    by a history that takes, epoch by epoch, a prefix of the operations containing all
+    acknowledged ones. -/
 theorem recover_then_write (hc : CodecOK crc enc dec) {snap : Option Store} {f : Bytes} {tr : Trace}
     (h : Reach crc enc dec snap f tr) :
     ∃ H r, PrefixOf tr H ∧ recover crc dec snap f = .ok r ∧ MetaEq r.md (specRun [] H) := by
@@ -58,50 +94,132 @@ theorem recover_then_write (hc : CodecOK crc enc dec) {snap : Option Store} {f :
   refine ⟨H, _, hpre, recover_take_plain hc snap R n hfit hno, ?_⟩
   rw [replay_md]; exact hme
 
-/-- **Checkpoint is crash safe** from every reachable state, with the log synced: whether the
-    crash falls before the snapshot, after the snapshot, anywhere inside or after the marker
-    record, or after the truncation, recovery yields the pre-checkpoint (= post-checkpoint) map
-    and, from the new snapshot on, its cache contents. -/
+/-- **Any number of crashes, FULL observable image**, for the crash model `ReachF` = `Reach`
+    without the crash points "new snapshot in place, checkpoint marker absent or incomplete".
+    MISSING (hence `_partial`): at those two crash points the whole old log is replayed over the
+    newer snapshot; for them only the metadata-map statement is proved (`recover_then_write`,
+    `checkpoint_crash_safe`) and the overlay is covered by the correspondence run. -/
+theorem recover_then_write_full_partial (hc : CodecOK crc enc dec) {snap : Option Store} {f : Bytes}
+    {tr : Trace} (h : ReachF crc enc dec snap f tr) :
+    ∃ H r, PrefixOf tr H ∧ recover crc dec snap f = .ok r ∧ FullEq r (specRun [] H) := by
+  obtain ⟨H, r, hpre, hr, hmd⟩ := recover_then_write hc (reachF_reach h)
+  exact ⟨H, r, hpre, hr, good_fullEq (reachF_good hc h r hr) hmd⟩
+
+/-- **Checkpoint is crash safe under every sync mode** (`Immediate`, `Batched n`, `Manual`, with
+    any unsynced tail).  From every reachable disk state, a running store `sy` (any mode, any
+    synced length) that has logged the records of ANY operation list takes a checkpoint.  After
+    each of the four steps (log fsynced / snapshot in place / marker appended / log truncated)
+    and for EVERY crash cut `n` the step's sync state allows (inside the marker included):
+    the disk state is again a reachable one with all operations acknowledged (so
+    `recover_then_write` applies to everything that follows) and recovery yields the
+    pre-checkpoint map — nothing lost, nothing resurrected.  After the last step recovery
+    returns the live store itself (full image, cache included). -/
 theorem checkpoint_crash_safe (hc : CodecOK crc enc dec) {snap : Option Store} {f : Bytes} {tr : Trace}
     (h : Reach crc enc dec snap f tr) (mem0 : Store) (hr : recover crc dec snap f = .ok mem0)
     (ops : List Op) (hfit : Fits enc (runOps mem0 ops).1) (id : Nat)
-    (hid : (enc (.checkpoint id)).length < U32) (m : Nat) :
-    (∃ r, recover crc dec snap (openRepair f ++ logBytes crc enc (runOps mem0 ops).1) = .ok r ∧
-        MetaEq r.md (runOps mem0 ops).2.md) ∧
-    (∃ r, recover crc dec (some (runOps mem0 ops).2)
-            (openRepair f ++ logBytes crc enc (runOps mem0 ops).1
-              ++ (encodeRec crc (enc (.checkpoint id))).take m) = .ok r ∧
-        MetaEq r.md (runOps mem0 ops).2.md ∧ r.cache = (runOps mem0 ops).2.cache) ∧
-    (∃ r, recover crc dec (some (runOps mem0 ops).2) [] = .ok r ∧
-        MetaEq r.md (runOps mem0 ops).2.md ∧ r.cache = (runOps mem0 ops).2.cache) := by
+    (hid : (enc (.checkpoint id)).length < U32)
+    (sy : Sys) (hsnap : sy.snap = snap) (hmem : sy.mem = (runOps mem0 ops).2)
+    (hfile : sy.wal.file = openRepair f ++ logBytes crc enc (runOps mem0 ops).1) :
+    (∀ st ∈ Sys.ckptSteps crc enc sy id, ∀ n,
+        Reach crc enc dec st.snap (st.crashFile n) (tr ++ [(ops, ops.length)]) ∧
+        ∃ r, recover crc dec st.snap (st.crashFile n) = .ok r ∧ MetaEq r.md sy.mem.md ∧
+          (st.snap = some sy.mem → r.cache = sy.mem.cache)) ∧
+    (∀ n, recover crc dec (Sys.checkpoint crc enc sy id).snap ((Sys.checkpoint crc enc sy id).crashFile n)
+        = .ok sy.mem) := by
   obtain ⟨H, -, hinv⟩ := reach_inv hc h
-  obtain ⟨S, hopen, hSfit, hSno, hmem, -⟩ := inv_open hc hinv hr
+  obtain ⟨S, hopen, hSfit, hSno, hmem0, -⟩ := inv_open hc hinv hr
   have hplain := runOps_plain mem0 ops
   have hlive : (runOps mem0 ops).2.md
       = replayMeta (snap.getD Store.empty).md (afterLastCkpt S ++ (runOps mem0 ops).1) := by
-    rw [replayMeta_append, ← replay_md, ← hmem, runOps_replay, runOps_md]
-  rw [hopen]
-  refine ⟨?_, ?_, ?_⟩
-  · have hfull := recover_full hc snap (S ++ (runOps mem0 ops).1) (hSfit.append hfit)
-      (hSno.append (fun e he => (hplain e he).1))
-    rw [logBytes_append] at hfull
-    refine ⟨_, hfull, ?_⟩
-    rw [replay_md, afterLastCkpt_append_plain _ _ (fun e he => (hplain e he).2), hlive]
-    exact MetaEq.refl _
-  · obtain ⟨R, n, hf, hRfit, hRno, hRme⟩ := inv_ckpt (crc := crc) S (runOps mem0 ops).1 hSfit hfit hSno
+    rw [replayMeta_append, ← replay_md, ← hmem0, runOps_replay, runOps_md]
+  -- the three kinds of crash state
+  have A : Reach crc enc dec snap sy.wal.file (tr ++ [(ops, ops.length)]) ∧
+      ∃ r, recover crc dec snap sy.wal.file = .ok r ∧ MetaEq r.md sy.mem.md := by
+    constructor
+    · have := Reach.round mem0 ops ops.length sy.wal.file.length h hr hfit
+        (by rw [hfile]; simp) (Nat.le_refl _) (by rw [List.take_length, hfile]; exact Nat.le_refl _)
+      rwa [← hfile, List.take_length] at this
+    · have hfull := recover_full hc snap (S ++ (runOps mem0 ops).1) (hSfit.append hfit)
+        (hSno.append (fun e he => (hplain e he).1))
+      rw [logBytes_append, ← hopen, ← hfile] at hfull
+      refine ⟨_, hfull, ?_⟩
+      rw [replay_md, afterLastCkpt_append_plain _ _ (fun e he => (hplain e he).2), hmem, hlive]
+      exact MetaEq.refl _
+  have B : ∀ m, Reach crc enc dec (some sy.mem)
+        (sy.wal.file ++ (encodeRec crc (enc (.checkpoint id))).take m) (tr ++ [(ops, ops.length)]) ∧
+      ∃ r, recover crc dec (some sy.mem) (sy.wal.file ++ (encodeRec crc (enc (.checkpoint id))).take m)
+          = .ok r ∧ MetaEq r.md sy.mem.md ∧ r.cache = sy.mem.cache := by
+    intro m
+    rw [hfile, hmem]
+    refine ⟨Reach.ckptCrash mem0 ops id m h hr hfit hid, ?_⟩
+    obtain ⟨R, n, hf, hRfit, hRno, hRme⟩ := inv_ckpt (crc := crc) S (runOps mem0 ops).1 hSfit hfit hSno
       hplain (runOps mem0 ops).2 _ hlive id m hid
-    rw [hf]
+    rw [hopen, hf]
     refine ⟨_, recover_take_plain hc _ R n hRfit hRno, ?_, ?_⟩
     · rw [replay_md]; exact hRme
     · rw [replay_cache]; rfl
-  · refine ⟨(runOps mem0 ops).2, ?_, MetaEq.refl _, rfl⟩
-    exact recover_nil _
+  have C : Reach crc enc dec (some sy.mem) [] (tr ++ [(ops, ops.length)]) ∧
+      recover crc dec (some sy.mem) [] = .ok sy.mem := by
+    rw [hmem]
+    exact ⟨Reach.ckptDone mem0 ops h hr hfit, recover_nil _⟩
+  have hsynced : (sy.ckptSync.ckptSnapshot).wal.syncedLen = (sy.ckptSync.ckptSnapshot).wal.file.length := rfl
+  have htrunc : ∀ n, (Sys.checkpoint crc enc sy id).crashFile n = [] := by
+    intro n; simp [Sys.checkpoint, Sys.ckptTruncate, Wal.truncate, Sys.crashFile]
+  constructor
+  · intro st hst n
+    simp only [Sys.ckptSteps, List.mem_cons, List.not_mem_nil, or_false] at hst
+    rcases hst with rfl | rfl | rfl | rfl
+    · -- the log is fsynced: every cut keeps the whole log; old snapshot
+      rw [show sy.ckptSync.crashFile n = sy.wal.file from Sys.crashFile_sync sy n]
+      show Reach crc enc dec sy.snap _ _ ∧ ∃ r, recover crc dec sy.snap _ = _ ∧ _ ∧ (sy.snap = _ → _)
+      rw [hsnap]
+      obtain ⟨a1, r, a2, a3⟩ := A
+      refine ⟨a1, r, a2, a3, ?_⟩
+      intro hs
+      have hc' := recovered_cache r a2
+      rw [hs] at hc'; exact hc'
+    · -- snapshot in place, log whole, no marker byte
+      rw [show sy.ckptSync.ckptSnapshot.crashFile n = sy.wal.file from Sys.crashFile_sync sy n]
+      obtain ⟨b1, r, b2, b3, b4⟩ := B 0
+      rw [List.take_zero, List.append_nil] at b1 b2
+      exact ⟨b1, r, b2, b3, fun _ => b4⟩
+    · -- marker appended: synced or not, a crash keeps the log and some byte prefix of the marker
+      obtain ⟨m, hm⟩ := Sys.crashFile_marker crc enc sy.ckptSync.ckptSnapshot id n hsynced
+      rw [hm]
+      obtain ⟨b1, r, b2, b3, b4⟩ := B m
+      exact ⟨b1, r, b2, b3, fun _ => b4⟩
+    · -- log truncated
+      have := htrunc n
+      simp only [Sys.checkpoint] at this
+      rw [this]
+      exact ⟨C.1, sy.mem, C.2, MetaEq.refl _, fun _ => rfl⟩
+  · intro n
+    rw [htrunc n]
+    exact C.2
+where
+  recovered_cache {snap : Option Store} {f : Bytes} (r : Store)
+      (h : recover crc dec snap f = .ok r) : r.cache = (snap.getD Store.empty).cache := by
+    unfold recover at h
+    simp only [] at h
+    split at h
+    · cases h
+    · injection h with h
+      rw [← h, replay_cache]
 
-/-- the live store itself follows the specification map (so "pre-checkpoint map" above is the
-    map of all operations issued so far) -/
+/-- the live store's metadata map follows the specification map (so "pre-checkpoint map" above is
+    the map of all operations issued so far) -/
 theorem live_follows_spec (s : Store) (ops : List Op) :
     (runOps s ops).2.md = specRun s.md ops := by
   exact runOps_md s ops
+
+/-- **the live store's full image follows the specification map**: after any operation list on a
+    fresh store, `get` answers for every key outside the `_cache:` class exactly what the
+    operations wrote (the embedding-slab overlay never shows a vector the value does not carry) -/
+theorem live_image_follows_spec (ops : List Op) :
+    FullEq (runOps Store.empty ops).2 (specRun [] ops) := by
+  apply good_fullEq (good_runOps good_empty ops)
+  rw [runOps_md]
+  exact MetaEq.refl _
 
 /-- **Exactly the cache class is not durable**: a `_cache:` key logs nothing; every other key's
     operation ends with the record that carries it. -/
@@ -119,13 +237,8 @@ theorem cache_keys_not_durable (s : Store) (k : Bytes) (v : Val) :
 
 /-- recovery never invents cache entries: the cache after recovery is the snapshot's cache -/
 theorem recovered_cache_is_snapshot_cache (snap : Option Store) (f : Bytes) (r : Store)
-    (h : recover crc dec snap f = .ok r) : r.cache = (snap.getD Store.empty).cache := by
-  unfold recover at h
-  simp only [] at h
-  split at h
-  · cases h
-  · injection h with h
-    rw [← h, replay_cache]
+    (h : recover crc dec snap f = .ok r) : r.cache = (snap.getD Store.empty).cache :=
+  checkpoint_crash_safe.recovered_cache r h
 
 /-- outside the `_cache:` and `emb:` classes `get` reads the metadata map only -/
 theorem get_reads_md (s : Store) (k : Bytes) (h1 : classify k ≠ .cache) (h2 : classify k ≠ .embedding) :
@@ -154,6 +267,31 @@ theorem immediate_acks_everything (sy : Sys) (ops : List Op) (hm : sy.mode = .im
     rw [List.foldl_cons]
     exact ih _ (by rw [Sys.op_mode]; exact hm) (Sys.op_immediate crc enc sy o hm h0)
 
+/-- **Rotation, logs that never rotate** (`_partial`: what is MISSING is every log that does
+    rotate — there the property is false, see `rotation_keeps_acked_witness`): when all records
+    fit `max_size_bytes`, the rotating writer's live file is the whole log and recovery yields
+    the map of all operations. -/
+theorem rotation_keeps_acked_partial (hc : CodecOK crc enc dec) (maxSize : Nat) (ops : List Op)
+    (hfit : Fits enc (runOps Store.empty ops).1)
+    (hsmall : (logBytes crc enc (runOps Store.empty ops).1).length ≤ maxSize) :
+    RotationKeepsAcked crc enc dec maxSize ops := by
+  have hplain := runOps_plain Store.empty ops
+  have hfile : (rotLog crc enc maxSize (runOps Store.empty ops).1).file
+      = logBytes crc enc (runOps Store.empty ops).1 := by
+    have := foldl_appendRot_no_rotation crc enc maxSize (runOps Store.empty ops).1 (Wal.openOn [])
+      (by simpa [Wal.openOn, openRepair_nil] using hsmall)
+    simpa [rotLog, Wal.openOn, openRepair_nil] using this
+  refine ⟨_, by rw [hfile]; exact recover_full hc none _ hfit (fun e he => (hplain e he).1), ?_⟩
+  rw [replay_md]
+  have := afterLastCkpt_append_plain [] (runOps Store.empty ops).1 (fun e he => (hplain e he).2)
+  rw [List.nil_append, afterLastCkpt_nil, List.nil_append] at this
+  rw [this]
+  show MetaEq (replayMeta Store.empty.md _) _
+  rw [runOps_replay]
+  exact MetaEq.refl _
+
+/-! ### refuted statements (concrete witnesses) -/
+
 /-- **Pre-fix `open` (append at physical EOF) loses an acknowledged record** — the defect class
     `tensor_store.wal.open/append_after_torn_tail`; with the repaired `open` it is recovered. -/
 theorem append_after_torn_tail_witness :
@@ -163,9 +301,9 @@ theorem append_after_torn_tail_witness :
     (parse crc (fun _ => true) (openRepair torn ++ encodeRec crc [9])) = ([[9]], .clean) := by
   decide +kernel
 
-/-- **Rotation loses acknowledged entries** (finding `tensor_store.wal.rotate/acked_entries_not_replayed`):
-    with `max_size_bytes = 30`, three acknowledged 3-byte records under `Immediate`; the file
-    recovery reads holds only the last one. -/
+/-- **Rotation loses acknowledged entries, frame level** (finding
+    `tensor_store.wal.rotate/acked_entries_not_replayed`): with `max_size_bytes = 30`, three
+    acknowledged 3-byte records under `Immediate`; the file recovery reads holds only the last one. -/
 theorem rotation_loses_acked_witness :
     let crc := Neumann.Crc32.crc32
     let w := [[1, 1, 1], [2, 2, 2], [3, 3, 3]].foldl
@@ -173,11 +311,31 @@ theorem rotation_loses_acked_witness :
     w.syncedLen = w.file.length ∧ (parse crc (fun _ => true) w.file) = ([[3, 3, 3]], .clean) := by
   decide +kernel
 
-/-- **Checkpoint with an unsynced tail** (finding
-    `tensor_store.slab_router.checkpoint/unsynced_tail_replayed_over_snapshot`): `Manual` mode,
+/-- **`RotationKeepsAcked` is false of the code** (same finding, at the level of the property):
+    `max_size_bytes = 30`, three acknowledged puts of 14-byte records; recovery from the live
+    file knows only the last key. -/
+theorem rotation_keeps_acked_witness :
+    ¬ RotationKeepsAcked (fun _ => 0) toyEnc toyDec 30
+        [Op.put [1] ⟨[1], none⟩, Op.put [2] ⟨[2], none⟩, Op.put [3] ⟨[3], none⟩] := by
+  intro ⟨r, hr, hme⟩
+  obtain ⟨r0, hr0, hp⟩ := exists_ok_of_okAnd
+    (x := recover (fun _ => 0) toyDec none (rotLog (fun _ => 0) toyEnc 30
+      (runOps Store.empty [Op.put [1] ⟨[1], none⟩, Op.put [2] ⟨[2], none⟩, Op.put [3] ⟨[3], none⟩]).1).file)
+    (p := fun r => decide (aget r.md [1] = none)) (by decide +kernel)
+  rw [hr0] at hr
+  injection hr with hr
+  subst hr
+  have h1 := hme [1]
+  rw [of_decide_eq_true hp] at h1
+  exact absurd h1 (by decide +kernel)
+
+/-- **Checkpoint without the fsync step** (class
+    `tensor_store.slab_router.checkpoint/unsynced_tail_replayed_over_snapshot`, fixed by repo
+    197dc525; `Sys.ckptStepsOld` = the steps before that commit): `Manual` mode,
     `put k v1; sync; put k v2; put j w; checkpoint` crashing right after the snapshot is in place.
     Recovery = new snapshot + the synced log prefix replayed over it = `{k ↦ v1, j ↦ w}`,
-    which is the map of NO prefix of the operations. -/
+    which is the map of NO prefix of the operations.  (`checkpoint_crash_safe` shows the repaired
+    steps exclude this for every mode.) -/
 theorem checkpoint_unsynced_tail_witness :
     let crc := Neumann.Crc32.crc32
     let k := [107]; let j := [106]
@@ -185,12 +343,15 @@ theorem checkpoint_unsynced_tail_witness :
     let ops := [Op.put k v1, Op.put k v2, Op.put j w]
     let s0 : Sys := ⟨.manual, Wal.openOn [], Store.empty, none⟩
     let s1 := (Sys.op crc toyEnc s0 (ops.getD 0 (.delete []))).sync
-    let s3 := ((ops.drop 1).foldl (Sys.op crc toyEnc) s1).ckptSnapshot
-    ∃ r, recover crc toyDec s3.snap (s3.crashFile 0) = .ok r ∧
+    let s2 := (ops.drop 1).foldl (Sys.op crc toyEnc) s1
+    ∃ st ∈ Sys.ckptStepsOld crc toyEnc s2 0, ∃ r,
+      recover crc toyDec st.snap (st.crashFile 0) = .ok r ∧
       aget r.md k = some v1 ∧ aget r.md j = some w ∧
       ∀ n, ¬ MetaEq r.md (specRun [] (ops.take n)) := by
-  intro crc k j v1 v2 w ops s0 s1 s3
-  obtain ⟨r, hr, hmd⟩ := exists_ok_of_md (x := recover crc toyDec s3.snap (s3.crashFile 0))
+  intro crc k j v1 v2 w ops s0 s1 s2
+  refine ⟨s2.ckptSnapshot, List.mem_cons_self, ?_⟩
+  obtain ⟨r, hr, hmd⟩ := exists_ok_of_md
+    (x := recover crc toyDec s2.ckptSnapshot.snap (s2.ckptSnapshot.crashFile 0))
     (m := [(k, v1), (j, w)]) (by decide +kernel)
   refine ⟨r, hr, ?_, ?_, ?_⟩
   · rw [hmd]; decide +kernel
@@ -206,22 +367,91 @@ theorem checkpoint_unsynced_tail_witness :
       rw [ht] at hme
       exact absurd (hme k) (by decide +kernel)
 
-/-- **A put on an existing `emb:` key is not atomic** (finding
-    `tensor_store.slab_router.put_durable/embedding_record_replayed_without_its_metadata_record`):
-    `put_durable` logs `EmbeddingSet` then `MetadataSet`; a log that ends between the two makes
-    recovery return the OLD body with the NEW embedding — the value of no prefix of the writes.
-    (This is the entity-index / embedding-slab overlay the `md` theorems above do not cover.) -/
+/-- **An `emb:` key stored without a vector read another key's embedding** (class
+    `tensor_store.slab_router.recover/stale_entity_id_embedding`, fixed by repo e374d74b;
+    `applyEntryOld1` / `putOld` = the code before it): `put emb:a` (no vector), `put emb:b`
+    (384-dim vector), crash, recover, `put emb:c` (no vector): `get emb:c` returned `emb:b`'s
+    vector.  With the repaired `recover` / `put` it returns what was written. -/
+theorem stale_entity_id_embedding_witness :
+    let crc : Bytes → Nat := fun _ => 0
+    let ka := [101, 109, 98, 58, 97]; let kb := [101, 109, 98, 58, 98]; let kc := [101, 109, 98, 58, 99]
+    let vb : Val := ⟨[2], some (List.replicate 1536 7)⟩
+    let vc : Val := ⟨[3], none⟩
+    let file := logBytes crc toyEnc (runOps Store.empty [Op.put ka ⟨[1], none⟩, Op.put kb vb]).1
+    (∃ r, recoverWith applyEntryOld1 crc toyDec none file = .ok r ∧
+      get (putOld r kc vc) kc = some ⟨[3], some (List.replicate 1536 7)⟩) ∧
+    (∃ r, recover crc toyDec none file = .ok r ∧ get (put r kc vc) kc = some vc) := by
+  intro crc ka kb kc vb vc file
+  constructor
+  · obtain ⟨r, hr, hp⟩ := exists_ok_of_okAnd (x := recoverWith applyEntryOld1 crc toyDec none file)
+      (p := fun r => decide (get (putOld r kc vc) kc = some ⟨[3], some (List.replicate 1536 7)⟩))
+      (by decide +kernel)
+    exact ⟨r, hr, of_decide_eq_true hp⟩
+  · obtain ⟨r, hr, hp⟩ := exists_ok_of_okAnd (x := recover crc toyDec none file)
+      (p := fun r => decide (get (put r kc vc) kc = some vc)) (by decide +kernel)
+    exact ⟨r, hr, of_decide_eq_true hp⟩
+
+/-- **A put on an existing `emb:` key was not atomic** (class
+    `tensor_store.slab_router.put_durable/embedding_record_replayed_without_its_metadata_record`,
+    fixed by repo 6b9ec7ce; `applyEntryOld2` = replay before it): `put_durable` logs
+    `EmbeddingSet` then `MetadataSet`; with the log cut between the two, the old replay returned
+    the OLD body with the NEW embedding — `RecoverIsPrefixFull` is false of it.
+    (`recover_is_prefix_full` proves it of the repaired replay for every cut.) -/
 theorem torn_put_embedding_witness :
+    let crc : Bytes → Nat := fun _ => 0
     let k := [101, 109, 98, 58, 97]
     let v1 : Val := ⟨[1], some (List.replicate 1536 1)⟩
     let v2 : Val := ⟨[2], some (List.replicate 1536 2)⟩
-    let recs := (runOps Store.empty [Op.put k v1, Op.put k v2]).1
-    recs.length = 4 ∧
-    ∃ r, recover (fun _ => 0) toyDec none (logBytes (fun _ => 0) toyEnc (recs.take 3)) = .ok r ∧
-      get r k = some ⟨[1], some (List.replicate 1536 2)⟩ := by
+    let ops := [Op.put k v1, Op.put k v2]
+    let n := (logBytes crc toyEnc ((runOps Store.empty ops).1.take 3)).length
+    (runOps Store.empty ops).1.length = 4 ∧
+    ¬ RecoverIsPrefixFull (recoverWith applyEntryOld2 crc toyDec) crc toyEnc ops n := by
+  intro crc k v1 v2 ops n
   refine ⟨by decide +kernel, ?_⟩
-  apply exists_ok_of_get
-  decide +kernel
+  intro ⟨j, r, hj, hrec, hfull, _⟩
+  obtain ⟨r0, hr0, hp⟩ := exists_ok_of_okAnd
+    (x := recoverWith applyEntryOld2 crc toyDec none ((logBytes crc toyEnc (runOps Store.empty ops).1).take n))
+    (p := fun r => decide (get r k = some ⟨[1], some (List.replicate 1536 2)⟩)) (by decide +kernel)
+  rw [hr0] at hrec
+  injection hrec with hrec
+  subst hrec
+  have h := hfull k (by decide)
+  rw [of_decide_eq_true hp] at h
+  match j, hj with
+  | 0, _ => exact absurd h (by decide +kernel)
+  | 1, _ => exact absurd h (by decide +kernel)
+  | 2, _ => exact absurd h (by decide +kernel)
+  | j + 3, hj => exact absurd hj (by simp [ops])
+
+/-- **A logged entity id named another key on replay** (class
+    `tensor_store.slab_router.recover/logged_entity_id_belongs_to_another_key`, fixed by repo
+    6b9ec7ce): `put a (vector); delete a; put a (vector); put emb:y (Y); put emb:z (Z)` — the
+    live `delete` of the non-`emb:` key keeps its index entry, replay of its `EntityRemove` does
+    not, so replay's ids run one ahead and the `EmbeddingSet` of `emb:z` lands on `emb:y`.
+    With the WHOLE log (no byte lost) the old replay made `get emb:y` return Z. -/
+theorem logged_entity_id_witness :
+    let crc : Bytes → Nat := fun _ => 0
+    let a := [97]; let ky := [101, 109, 98, 58, 121]; let kz := [101, 109, 98, 58, 122]
+    let vec := fun x => List.replicate 1536 x
+    let ops := [Op.put a ⟨[1], some (vec 1)⟩, Op.delete a, Op.put a ⟨[2], some (vec 2)⟩,
+                Op.put ky ⟨[3], some (vec 3)⟩, Op.put kz ⟨[4], some (vec 4)⟩]
+    let n := (logBytes crc toyEnc (runOps Store.empty ops).1).length
+    ¬ RecoverIsPrefixFull (recoverWith applyEntryOld2 crc toyDec) crc toyEnc ops n := by
+  intro crc a ky kz vec ops n
+  intro ⟨j, r, hj, hrec, hfull, hack⟩
+  obtain ⟨r0, hr0, hp⟩ := exists_ok_of_okAnd
+    (x := recoverWith applyEntryOld2 crc toyDec none ((logBytes crc toyEnc (runOps Store.empty ops).1).take n))
+    (p := fun r => decide (get r ky = some ⟨[3], some (vec 4)⟩)) (by decide +kernel)
+  rw [hr0] at hrec
+  injection hrec with hrec
+  subst hrec
+  have h := hfull ky (by decide)
+  rw [of_decide_eq_true hp] at h
+  have h5 : 5 ≤ j := hack 5 (by decide) (by decide +kernel)
+  have hj' : j ≤ 5 := by simpa [ops] using hj
+  have : j = 5 := by omega
+  subst this
+  exact absurd h (by decide +kernel)
 
 /-! ### non-vacuity -/
 
@@ -237,5 +467,28 @@ example : ∃ f tr, Reach (fun _ => 0) toyEnc toyDec none f tr ∧ tr.length = 2
   have r2 := Reach.round Store.empty [Op.put [107] ⟨[1], none⟩] 1 100 r1
     (by decide +kernel) (by unfold Fits; decide +kernel) (by decide +kernel) (by decide) (by decide +kernel)
   exact ⟨_, _, r2, by decide, by decide +kernel⟩
+
+/-- the same chain is in `ReachF` -/
+example : ∃ f tr, ReachF (fun _ => 0) toyEnc toyDec none f tr ∧ tr.length = 2 ∧ f ≠ [] := by
+  have r0 := ReachF.init (crc := fun _ => 0) (enc := toyEnc) (dec := toyDec)
+  have r1 := ReachF.round Store.empty [Op.put [107] ⟨[1], none⟩] 0 10 r0
+    (by decide +kernel) (by unfold Fits; decide +kernel) (by decide +kernel) (by decide) (by decide +kernel)
+  have r2 := ReachF.round Store.empty [Op.put [107] ⟨[1], none⟩] 1 100 r1
+    (by decide +kernel) (by unfold Fits; decide +kernel) (by decide +kernel) (by decide) (by decide +kernel)
+  exact ⟨_, _, r2, by decide, by decide +kernel⟩
+
+/-- the hypotheses of `checkpoint_crash_safe` hold of a `Manual`-mode store with an UNSYNCED tail
+    (two records written, none synced) -/
+example :
+    let ops := [Op.put [107] ⟨[1], none⟩, Op.put [106] ⟨[2], none⟩]
+    let sy := ops.foldl (Sys.op (fun _ => 0) toyEnc) ⟨.manual, Wal.openOn [], Store.empty, none⟩
+    sy.mode = .manual ∧ sy.wal.syncedLen = 0 ∧ sy.wal.file.length = 28 ∧ sy.snap = none ∧
+    sy.mem = (runOps Store.empty ops).2 ∧
+    sy.wal.file = openRepair [] ++ logBytes (fun _ => 0) toyEnc (runOps Store.empty ops).1 := by
+  decide +kernel
+
+/-- the hypotheses of `rotation_keeps_acked_partial` are satisfiable with a non-empty log -/
+example : (logBytes (fun _ => 0) toyEnc (runOps Store.empty [Op.put [1] ⟨[1], none⟩]).1).length ≤ 30 := by
+  decide +kernel
 
 end Neumann.Durable.Props
